@@ -39,17 +39,41 @@ use crate::sched::{self, BytesChooser, Chooser, Dfs, Event, Job, Opts};
 
 pub const KNOWN_DOUBLE: &str = "C37/rsync/double-fetch/marker-removed-before-updated";
 
-/// The only lock of the rsync collector that is held across a yield point is the per-module
-/// mutex (label `sync.mutex.lock`); the guards of `updated`, `running` and `metrics` are
-/// temporaries. So only that label can be a failed try-lock.
-const STUTTER: &[&str] = &["sync.mutex.lock"];
+// Locks held across yield points: the per-module mutex (both collectors) and, in the RRDP
+// collector, the read guard of `updated` that lives through the `if let` body which removes the
+// `running` entry. So a thread can really be blocked at `sync.mutex.lock` and at
+// `sync.rwlock.write`; on the other hand `running.write()` / `updated.write()` follow each other
+// with the same label. The scheduler is therefore run with `stutter_after: 2` (a thread counts as
+// blocked only when it comes back to the same label twice in a row).
 
 /// CA number -> (host, module, directory). CAs 0,1,4 share one module, 2 is another module on the
 /// same host, 3 and 5 live on another host (5 in the same module as 3).
-pub const CAS: [(&str, &str, &str); 6] = [("m0.rv.test", "repo", "ca0"), ("m0.rv.test", "repo", "ca1"), ("m0.rv.test", "alt", "ca2"), ("m1.rv.test", "repo", "ca3"), ("m0.rv.test", "repo", "ca4/deep"), ("m1.rv.test", "repo", "ca5")];
+pub const CAS: [(&str, &str, &str); 9] = [
+    ("m0.rv.test", "repo", "ca0"),
+    ("m0.rv.test", "repo", "ca1"),
+    ("m0.rv.test", "alt", "ca2"),
+    ("m1.rv.test", "repo", "ca3"),
+    ("m0.rv.test", "repo", "ca4/deep"),
+    ("m1.rv.test", "repo", "ca5"),
+    // CAs 6.. publish through RRDP (rpkiNotify https://<host>/notify.xml): 6 and 7 share a repository
+    ("r0.rpki.test", "repo", "ca6"),
+    ("r0.rpki.test", "repo", "ca7"),
+    ("r1.rpki.test", "repo", "ca8"),
+];
+/// Number of rsync-only CAs (the first ones in `CAS`).
+pub const N_RSYNC: usize = 6;
 
+fn is_rrdp(ca: usize) -> bool {
+    ca >= N_RSYNC
+}
+
+/// The repository a CA is fetched from: rsync module `host/module` or `rrdp:host`.
 fn module_of(ca: usize) -> String {
-    format!("{}/{}", CAS[ca].0, CAS[ca].1)
+    if is_rrdp(ca) {
+        format!("rrdp:{}", CAS[ca].0)
+    } else {
+        format!("{}/{}", CAS[ca].0, CAS[ca].1)
+    }
 }
 
 fn object_uri(ca: usize) -> String {
@@ -65,6 +89,7 @@ pub struct Case {
 }
 
 struct World {
+    https: crate::c37net::MiniHttps,
     dir: tempfile::TempDir,
     collector: &'static Collector,
     cas: Vec<Arc<CaCert>>,
@@ -89,10 +114,14 @@ impl World {
         self.dir.path().join("rsync.log")
     }
 
-    fn config(dir: &Path, command: &Path) -> Config {
+    fn config(dir: &Path, command: &Path, https: &crate::c37net::MiniHttps) -> Config {
         let mut c = Config::default_with_paths(dir.join("routinator.conf"), dir.join("cache"));
         c.no_rir_tals = true;
-        c.disable_rrdp = true;
+        c.disable_rrdp = false;
+        c.rrdp_root_certs = vec![crate::c37net::ca_path()];
+        c.rrdp_proxies = vec![https.proxy_url()];
+        c.rrdp_timeout = Some(std::time::Duration::from_secs(30));
+        c.rrdp_connect_timeout = Some(std::time::Duration::from_secs(10));
         c.rsync_command = command.to_string_lossy().into_owned();
         c.rsync_args = Some(vec![format!("--rv-root={}", dir.join("srv").display()), format!("--rv-log={}", dir.join("rsync.log").display())]);
         c.rsync_timeout = Some(std::time::Duration::from_secs(60));
@@ -115,7 +144,8 @@ impl World {
         } else {
             rvrsync
         };
-        let config = Self::config(dir.path(), &command);
+        let https = crate::c37net::MiniHttps::start();
+        let config = Self::config(dir.path(), &command, &https);
         let mut collector = Collector::new(&config).expect("collector");
         collector.ignite().expect("ignite");
         // `Run<'a>` borrows the collector; the jobs of a schedule are 'static, so the collector of
@@ -127,20 +157,21 @@ impl World {
                 let repo = uri_rsync(&format!("rsync://{}/{}/{}/", CAS[i].0, CAS[i].1, CAS[i].2));
                 let mft = uri_rsync(&format!("rsync://{}/{}/{}/ca.mft", CAS[i].0, CAS[i].1, CAS[i].2));
                 let res = gen::Res { v4: vec![(std::net::Ipv4Addr::new(10, i as u8, 0, 0), 16)], v6: vec![], asn: vec![(64500 + i as u32, 64500 + i as u32)] };
-                let der = gen::issue_ta(i, &res, gen::validity(now, -86400, 86400 * 30), &repo, &mft, None, 1 + i as u128);
+                let notify = is_rrdp(i).then(|| rpki::uri::Https::from_string(format!("https://{}/notify.xml", CAS[i].0)).unwrap());
+                let der = gen::issue_ta(i, &res, gen::validity(now, -86400, 86400 * 30), &repo, &mft, notify.as_ref(), 1 + i as u128);
                 let cert = Cert::decode(der).expect("own TA decodes");
                 let cert = cert.validate_ta(TalInfo::from_name(format!("ta{}", i)).into_arc(), false).expect("validate_ta");
                 CaCert::root(cert, TalUri::from_string(format!("rsync://{}/{}/ta{}.cer", CAS[i].0, CAS[i].1, i)).unwrap(), i).expect("CaCert::root")
             })
             .collect();
-        World { dir, collector, cas, version: std::cell::Cell::new(0) }
+        World { https, dir, collector, cas, version: std::cell::Cell::new(0) }
     }
 
     /// The server publishes the next version of every object; the fetch log starts empty.
     fn next_version(&self) -> u64 {
         let v = self.version.get() + 1;
         self.version.set(v);
-        for ca in 0..CAS.len() {
+        for ca in 0..N_RSYNC {
             let dir = self.srv().join(CAS[ca].0).join(CAS[ca].1).join(CAS[ca].2);
             if v == 1 {
                 std::fs::create_dir_all(&dir).unwrap();
@@ -148,7 +179,34 @@ impl World {
             std::fs::write(dir.join("obj.bin"), content(v, ca)).unwrap();
         }
         let _ = std::fs::remove_file(self.log());
+        // RRDP repositories: a new session per version, so every run has to take the snapshot
+        let hosts: std::collections::BTreeSet<&str> = (N_RSYNC..CAS.len()).map(|ca| CAS[ca].0).collect();
+        for (k, host) in hosts.into_iter().enumerate() {
+            let session = uuid::Uuid::from_u128(((v as u128) << 8) | k as u128);
+            let elements = (N_RSYNC..CAS.len()).filter(|ca| CAS[*ca].0 == host).map(|ca| rpki::rrdp::PublishElement::new(uri_rsync(&object_uri(ca)), bytes::Bytes::from(content(v, ca)))).collect();
+            let mut snapshot = Vec::new();
+            rpki::rrdp::Snapshot::new(session, v, elements).write_xml(&mut snapshot).expect("snapshot xml");
+            let info = rpki::rrdp::UriAndHash::new(rpki::uri::Https::from_string(format!("https://{}/snapshot.xml", host)).unwrap(), rpki::rrdp::Hash::from_data(&snapshot));
+            let mut notification = Vec::new();
+            rpki::rrdp::NotificationFile::new(session, v, info, Vec::new()).write_xml(&mut notification).expect("notification xml");
+            self.https.set(host, "/snapshot.xml", snapshot);
+            self.https.set(host, "/notify.xml", notification);
+        }
+        self.https.clear_log();
         v
+    }
+
+    /// Preamble: one sequential RRDP fetch and one rsync fetch must work, otherwise the fixture is
+    /// broken (infrastructure failure, not a verdict).
+    fn selftest(&self) {
+        let v = self.next_version();
+        let run = self.collector.start();
+        for ca in [6usize, 0] {
+            let repo = run.repository(&self.cas[ca]).ok().flatten().unwrap_or_else(|| panic!("self-test: no repository for CA {} (fetches {:?})", ca, self.fetch_counts()));
+            assert_eq!(repo.is_rrdp(), is_rrdp(ca), "self-test: CA {} served through the wrong transport (fetches {:?})", ca, self.fetch_counts());
+            let data = repo.load_object(&uri_rsync(&object_uri(ca))).ok().flatten().map(|d| d.to_vec());
+            assert_eq!(data, Some(content(v, ca)), "self-test: object of CA {} not as published", ca);
+        }
     }
 
     fn fetch_counts(&self) -> BTreeMap<String, usize> {
@@ -156,6 +214,14 @@ impl World {
         if let Ok(text) = std::fs::read_to_string(self.log()) {
             for l in text.lines() {
                 *m.entry(l.trim().to_string()).or_default() += 1;
+            }
+        }
+        // an RRDP repository counts as fetched once per request for its notification file
+        for ((host, path), n) in self.https.counts() {
+            if path == "/notify.xml" {
+                *m.entry(format!("rrdp:{}", host)).or_default() += n;
+            } else if n > 1 {
+                *m.entry(format!("rrdp-file:{}{}", host, path)).or_default() += n;
             }
         }
         m
@@ -167,8 +233,9 @@ impl World {
 struct Got {
     tid: usize,
     ca: usize,
-    /// None = `repository()` returned no repository
+    /// false = `repository()` returned no repository
     repo: bool,
+    via_rrdp: bool,
     data: Option<Vec<u8>>,
 }
 
@@ -189,9 +256,9 @@ fn jobs_for(case: &Case, world: &World, run: &Arc<routinator::collector::Run<'st
                     let g = match res {
                         Ok(Some(repo)) => {
                             let data = repo.load_object(&uri_rsync(&object_uri(ca))).ok().flatten();
-                            Got { tid, ca, repo: true, data: data.map(|d| d.to_vec()) }
+                            Got { tid, ca, repo: true, via_rrdp: repo.is_rrdp(), data: data.map(|d| d.to_vec()) }
                         }
-                        _ => Got { tid, ca, repo: false, data: None },
+                        _ => Got { tid, ca, repo: false, via_rrdp: false, data: None },
                     };
                     sched::note(format!("got {}", ca));
                     got.lock().unwrap().push(g);
@@ -269,7 +336,7 @@ fn calls_of(trace: &[Event]) -> Vec<Call> {
 /// `updated` check before that fetcher recorded completion.
 fn known_shape_modules(calls: &[Call]) -> Vec<String> {
     let mut res = Vec::new();
-    for y in calls.iter().filter(|c| c.fetched && c.post_writes.len() == 2) {
+    for y in calls.iter().filter(|c| c.fetched && c.post_writes.len() == 2 && !is_rrdp(c.ca)) {
         for x in calls.iter() {
             if (x.tid, x.ca) == (y.tid, y.ca) || module_of(x.ca) != module_of(y.ca) {
                 continue;
@@ -305,7 +372,7 @@ fn execute(world: &World, case: &Case, chooser: &mut dyn Chooser, info: &mut Cas
     let version = world.next_version();
     let run = Arc::new(world.collector.start());
     let got: Arc<Mutex<Vec<Got>>> = Default::default();
-    let out = sched::run_opts(jobs_for(case, world, &run, &got), chooser, &mut |_| Ok(()), &Opts { stutter_labels: Some(STUTTER) });
+    let out = sched::run_opts(jobs_for(case, world, &run, &got), chooser, &mut |_| Ok(()), &Opts { stutter_labels: None, stutter_after: 2 });
     if let Some((tid, msg)) = out.panics.first() {
         return Verdict::fail("C37/thread-panic", format!("thread {} panicked: {}", tid, msg));
     }
@@ -324,12 +391,18 @@ fn execute(world: &World, case: &Case, chooser: &mut dyn Chooser, info: &mut Cas
                 let s = r.module.to_string();
                 *m.entry(s.trim_start_matches("rsync://").trim_end_matches('/').to_string()).or_default() += 1;
             }
+            for r in &metrics.rrdp {
+                *m.entry(format!("rrdp:{}", r.notify_uri.canonical_authority())).or_default() += 1;
+            }
             m
         }
         Err(_) => return Verdict::Dropped("run_still_shared".into()),
     };
     let counts = world.fetch_counts();
     let calls = calls_of(&out.trace);
+    if std::env::var_os("RV_TRACE").is_some() {
+        eprintln!("trace: {}\ncalls: {:?}\ncounts: {:?}", crate::hsched::render_trace(&out.trace), calls, counts);
+    }
     let got = std::mem::take(&mut *got.lock().unwrap());
 
     // ---- coverage ----
@@ -344,11 +417,11 @@ fn execute(world: &World, case: &Case, chooser: &mut dyn Chooser, info: &mut Cas
     // non-trivial: a second requester of a module made its `running` entry after the fetcher had
     // released the marker and before completion was recorded
     let mut nt = false;
-    for y in calls.iter().filter(|c| c.fetched && c.post_writes.len() == 2) {
+    for y in calls.iter().filter(|c| c.fetched && c.post_writes.len() >= 2) {
         for x in calls.iter() {
             if (x.tid, x.ca) != (y.tid, y.ca) && module_of(x.ca) == module_of(y.ca) {
                 if let Some(e) = x.entry {
-                    if e > y.post_writes[0] && e < y.post_writes[1] {
+                    if e > y.post_writes[0] && e < *y.post_writes.last().unwrap() {
                         nt = true;
                     }
                 }
@@ -359,7 +432,10 @@ fn execute(world: &World, case: &Case, chooser: &mut dyn Chooser, info: &mut Cas
     if nt {
         info.class("nt:requester-between-marker-release-and-completion-record");
     }
-    info.class(format!("threads={} modules={} shared-modules={}", case.threads.len(), requested.len(), shared.min(2)));
+    info.class(format!("threads={} repositories={} shared={}", case.threads.len(), requested.len(), shared.min(2)));
+    for m in requested.keys() {
+        info.class(if m.starts_with("rrdp:") { "transport=rrdp" } else { "transport=rsync" });
+    }
     if calls.iter().any(|c| c.blocked > 0) {
         info.class("a-requester-waited-on-the-module-mutex");
     }
@@ -372,19 +448,23 @@ fn execute(world: &World, case: &Case, chooser: &mut dyn Chooser, info: &mut Cas
 
     // ---- oracle 2: every user reads the data of the finished fetch ----
     for g in &got {
+        let tr = if is_rrdp(g.ca) { "rrdp" } else { "rsync" };
         if !g.repo {
-            return Verdict::fail("C37/rsync/no-repository", format!("thread {}: repository() for CA {} returned no repository although rsync is enabled", g.tid, g.ca));
+            return Verdict::fail(format!("C37/{}/no-repository", tr), format!("thread {}: repository() for CA {} returned no repository although its transport is enabled and the server is up; fetches {:?}", g.tid, g.ca, counts));
+        }
+        if g.via_rrdp != is_rrdp(g.ca) {
+            return Verdict::fail(format!("C37/{}/wrong-transport", tr), format!("thread {}: CA {} was served via {} ; fetches {:?}", g.tid, g.ca, if g.via_rrdp { "RRDP" } else { "rsync" }, counts));
         }
         let want = content(version, g.ca);
         match &g.data {
             Some(d) if *d == want => {}
             Some(d) => {
                 let stale = version > 1 && *d == content(version - 1, g.ca);
-                let key = if stale { "C37/rsync/read-before-fetch/stale-copy" } else { "C37/rsync/read-before-fetch/partial-or-foreign-data" };
+                let key = format!("C37/{}/read-before-fetch/{}", tr, if stale { "stale-copy" } else { "partial-or-foreign-data" });
                 return Verdict::fail(key, format!("thread {} read {} right after repository() returned: got {} bytes starting {:?}, the server publishes version {} ({} bytes); fetches {:?}", g.tid, object_uri(g.ca), d.len(), String::from_utf8_lossy(&d[..d.len().min(24)]), version, want.len(), counts));
             }
             None => {
-                return Verdict::fail("C37/rsync/read-before-fetch/object-missing", format!("thread {} found no {} right after repository() returned; fetches {:?}", g.tid, object_uri(g.ca), counts));
+                return Verdict::fail(format!("C37/{}/read-before-fetch/object-missing", tr), format!("thread {} found no {} right after repository() returned; fetches {:?}", g.tid, object_uri(g.ca), counts));
             }
         }
     }
@@ -397,27 +477,37 @@ fn execute(world: &World, case: &Case, chooser: &mut dyn Chooser, info: &mut Cas
         let n = counts.get(module).copied().unwrap_or(0);
         let m = metric_counts.get(module).copied().unwrap_or(0);
         if n > 1 || m > 1 {
-            let is_known_shape = known_modules.contains(module);
+            let is_known_shape = known_modules.contains(module) && !module.starts_with("rrdp:");
             if is_known_shape && is_listed_known("C37", KNOWN_DOUBLE) && !DIRECTED.with(|d| d.get()) {
                 info.class("excluded:known-double-fetch-shape");
                 EXCLUDED.with(|e| e.set(e.get() + 1));
                 continue;
             }
-            let key = if is_known_shape { KNOWN_DOUBLE.to_string() } else { "C37/rsync/double-fetch/other-schedule".to_string() };
+            let key = if module.starts_with("rrdp:") {
+                "C37/rrdp/double-fetch".to_string()
+            } else if is_known_shape {
+                KNOWN_DOUBLE.to_string()
+            } else {
+                "C37/rsync/double-fetch/other-schedule".to_string()
+            };
             return Verdict::fail(
                 key,
-                format!("module {} was fetched {} times in one run (rsync metrics list it {} times); users (thread, CA) {:?}; calls {:?}; trace: {}", module, n, m, users, calls, crate::hsched::render_trace(&out.trace)),
+                format!("repository {} was fetched {} times in one run (rsync metrics list it {} times); users (thread, CA) {:?}; calls {:?}; trace: {}", module, n, m, users, calls, crate::hsched::render_trace(&out.trace)),
             );
         }
+        let tr = if module.starts_with("rrdp:") { "rrdp" } else { "rsync" };
         if n == 0 {
-            return Verdict::fail("C37/rsync/never-fetched", format!("module {} was requested by {:?} but never fetched", module, users));
+            return Verdict::fail(format!("C37/{}/never-fetched", tr), format!("repository {} was requested by {:?} but never fetched", module, users));
         }
         if m != n {
-            return Verdict::fail("C37/rsync/metrics-mismatch", format!("module {}: {} fetches, {} metric entries", module, n, m));
+            return Verdict::fail(format!("C37/{}/metrics-mismatch", tr), format!("repository {}: {} fetches, {} metric entries", module, n, m));
         }
     }
+    if let Some((module, n)) = counts.iter().find(|(m, _)| m.starts_with("rrdp-file:")) {
+        return Verdict::fail("C37/rrdp/double-fetch/snapshot", format!("{} was requested {} times in one run", module, n));
+    }
     if let Some((module, _)) = counts.iter().find(|(m, _)| !requested.contains_key(*m)) {
-        return Verdict::fail("C37/rsync/unrequested-fetch", format!("module {} fetched but never requested", module));
+        return Verdict::fail("C37/unrequested-fetch", format!("repository {} fetched but never requested", module));
     }
     Verdict::Pass
 }
@@ -432,17 +522,22 @@ fn dfs_programs(tier: Tier) -> Vec<Case> {
     let mut v = vec![
         // two CAs of one module
         c(&[&[0], &[1]]),
-        // the same CA twice
-        c(&[&[0], &[0]]),
-        // different modules (same host / other host)
-        c(&[&[0], &[2]]),
-        c(&[&[0], &[3]]),
         // a thread that comes back to the module later
         c(&[&[0, 1], &[4]]),
+        // two CAs of one RRDP repository; RRDP and rsync side by side
+        c(&[&[6], &[7]]),
+        // different modules on one host; RRDP and rsync side by side
+        c(&[&[0], &[2]]),
+        c(&[&[6], &[0]]),
     ];
     if tier == Tier::Thorough {
+        v.push(c(&[&[0], &[0]]));
+
+        v.push(c(&[&[0], &[3]]));
         v.push(c(&[&[0, 3], &[5, 1]]));
         v.push(c(&[&[0], &[1], &[4]]));
+        v.push(c(&[&[6, 8], &[7]]));
+        v.push(c(&[&[6], &[7], &[6]]));
     }
     v
 }
@@ -451,18 +546,22 @@ fn run_dfs(ctx: &Ctx, rep: &mut Report, world: &World) {
     // process creation dominates the cost of a schedule (one fake-rsync subprocess per fetch), so the
     // quick tier enumerates all schedules with at most two preemptions; thorough enumerates all
     let bound = ctx.tier.pick(2usize, usize::MAX);
+    let bound_rrdp = std::env::var("RV_BOUND_RRDP").ok().and_then(|v| v.parse().ok()).unwrap_or(ctx.tier.pick(3usize, usize::MAX));
     let cap = ctx.tier.pick(2_500usize, 60_000);
     let cap_other = ctx.tier.pick(250usize, 60_000);
     let mut per_program = Vec::new();
     let mut all_exhausted = true;
     let mut total = 0usize;
     for prog in dfs_programs(ctx.tier) {
+        let started = std::time::Instant::now();
         let mut dfs = Dfs::new();
         let mut n = 0usize;
         let mut exhausted = false;
         loop {
             let mut info = CaseInfo::default();
-            let mut bounded = Bounded::new(&mut dfs, bound);
+            // RRDP-only programs are cheap (no subprocess): higher preemption bound
+            let rrdp_only = prog.threads.iter().flatten().all(|c| is_rrdp(*c as usize % CAS.len()));
+            let mut bounded = Bounded::new(&mut dfs, if rrdp_only { bound_rrdp } else { bound });
             let verdict = execute(world, &prog, &mut bounded, &mut info);
             n += 1;
             let case = Case { choices: bounded.taken.clone(), ..prog.clone() };
@@ -483,19 +582,21 @@ fn run_dfs(ctx: &Ctx, rep: &mut Report, world: &World) {
         }
         total += n;
         all_exhausted &= exhausted;
-        per_program.push(serde_json::json!({"threads": prog.threads, "schedules": n, "exhausted": exhausted}));
+        per_program.push(serde_json::json!({"threads": prog.threads, "schedules": n, "exhausted": exhausted, "wall_ms": started.elapsed().as_millis() as u64}));
     }
     flush_excluded(rep);
     rep.extra.insert("dfs_schedules".into(), serde_json::json!(total));
     rep.extra.insert("dfs_programs".into(), serde_json::json!(per_program));
     rep.exhaustive = Some(all_exhausted && bound == usize::MAX);
+    rep.extra.insert("dfs_preemption_bound_rrdp_only_programs".into(), if bound_rrdp == usize::MAX { serde_json::json!("none") } else { serde_json::json!(bound_rrdp) });
     rep.extra.insert("dfs_preemption_bound".into(), if bound == usize::MAX { serde_json::json!("none") } else { serde_json::json!(bound) });
 }
 
-fn case_strategy() -> impl Strategy<Value = Case> {
-    (2usize..=4).prop_flat_map(|n| {
+fn case_strategy(rrdp_only: bool) -> impl Strategy<Value = Case> {
+    (2usize..=4).prop_flat_map(move |n| {
         // mostly CAs of the shared module, sometimes others
-        let ca = prop_oneof![3 => Just(0u8), 3 => Just(1u8), 2 => Just(4u8), 1 => Just(2u8), 1 => Just(3u8), 1 => Just(5u8)];
+        let ca = prop_oneof![3 => Just(0u8), 3 => Just(1u8), 2 => Just(4u8), 1 => Just(2u8), 1 => Just(3u8), 1 => Just(5u8), 3 => Just(6u8), 3 => Just(7u8), 1 => Just(8u8)];
+        let ca = if rrdp_only { prop_oneof![3 => Just(6u8), 3 => Just(7u8), 1 => Just(8u8)].boxed() } else { ca.boxed() };
         (prop::collection::vec(prop::collection::vec(ca, 1..=2), n..=n), prop::collection::vec(0u8..4, 0..60)).prop_map(|(threads, choices)| Case { threads, choices })
     })
 }
@@ -572,7 +673,7 @@ fn run_stress(ctx: &Ctx, rep: &mut Report) {
 pub fn run(ctx: &Ctx, rep: &mut Report, replay: Option<&serde_json::Value>) {
     rep.rule("2-4 threads call the real collector::Run::repository(ca) + Repository::load_object for CA certificates (validated self-signed certificates issued by the harness) whose caRepository lies in one shared rsync module (3 CAs), another module on the same host (1) or another host (2); transport = fake rsync subprocess started by the unmodified RsyncCommand, its log counts invocations per module; before every run the server publishes a new version of every object (the local copy holds the previous one); schedules over the try-lock yield points of updated/running/module mutex/metrics: (dfs) every schedule of 5 two-thread programs (thorough +2, capped), (sched) generated programs 2-4 threads x 1-2 requests with generated choice strings, (stress) 8 uncontrolled threads against a fetch that takes 30 ms; oracle: per run every requested module fetched exactly once (log and rsync metrics), every object read right after repository() returned equals the server's current version; non-trivial = a second requester of a module makes its `running` entry between the fetcher's marker release and its completion record; distinct by program+schedule");
     rep.assume("one controlled thread runs at a time; the fetch itself (subprocess) runs inside one scheduling step because RsyncCommand::update contains no yield point, so 'reading during a fetch' is only exercised by the uncontrolled stress rounds");
-    rep.assume("RRDP leg: not covered by this check run (see note in MANIFEST)");
+    rep.assume("RRDP repositories are served by an in-harness HTTPS server reached through routinator's own HTTP client (rrdp-proxy = loopback CONNECT proxy, rrdp-root-cert = test CA); every run sees a new session, so the update is always notification + snapshot (delta processing is not part of this property)");
     crate::hist::init_process();
     if let Some(v) = replay {
         let t: Tagged<serde_json::Value> = serde_json::from_value(v.clone()).expect("replay");
@@ -588,9 +689,13 @@ pub fn run(ctx: &Ctx, rep: &mut Report, replay: Option<&serde_json::Value>) {
         return;
     }
     let world = World::new(ctx, false);
-    DIRECTED.with(|d| d.set(true));
-    run_case(ctx, rep, "sched", &directed_known(), |c, i| prop_sched(&world, c, i));
-    DIRECTED.with(|d| d.set(false));
+    world.selftest();
+    // RV_SKIP_DIRECTED=1 (testing aid): let the bulk search find the shape on its own
+    if std::env::var_os("RV_SKIP_DIRECTED").is_none() {
+        DIRECTED.with(|d| d.set(true));
+        run_case(ctx, rep, "sched", &directed_known(), |c, i| prop_sched(&world, c, i));
+        DIRECTED.with(|d| d.set(false));
+    }
     if rep.violated() {
         return;
     }
@@ -598,8 +703,12 @@ pub fn run(ctx: &Ctx, rep: &mut Report, replay: Option<&serde_json::Value>) {
     if rep.violated() {
         return;
     }
-    run_prop(ctx, rep, "sched", ctx.tier.pick(150, 20_000), case_strategy(), |c, i| prop_sched(&world, c, i));
+    run_prop(ctx, rep, "sched", ctx.tier.pick(150, 20_000), case_strategy(false), |c, i| prop_sched(&world, c, i));
     flush_excluded(rep);
+    if rep.violated() {
+        return;
+    }
+    run_prop_salted(ctx, rep, "sched", "sched-rrdp", ctx.tier.pick(1_500, 60_000), case_strategy(true), |c, i| prop_sched(&world, c, i));
     if rep.violated() {
         return;
     }
